@@ -229,7 +229,7 @@ def _project_variants(env, rnd, par, fn, tag):
         pab, pvar = dims[pf][2], dims[pf][3]
         Q = F.base_project(rnd, crops=((pab, pvar), (pab, pvar)), years=(1980, 1983))
         # pre-crop + first sown crop = the partner, then the target crop twice
-        Q.rot = [Q.rot[0], Q.rot[1]] + [(abbr,) + r[1:6] + (var,) for r in Q.rot[2:]]
+        Q.rot = [Q.rot[0], Q.rot[1]] + [(abbr,) + r[1:5] + (r[5] if r[5] is not None else "0", var) for r in Q.rot[2:]]
         nm = tag + ("m" if kind == "after-more-stages" else "f")
         F.write_project(env, nm, Q)
         out.append((nm, Q, kind, dims[pf][1], ""))
